@@ -1,14 +1,22 @@
 import FloVerif.Driver.Util
 import FloVerif.Driver.C05
-import FloVerif.Model.Length
-/-! Correspondence for C19: Float mirror of the `section_length` model against `curve_length`. -/
-namespace Driver.C19
-open Prelude Gen Driver Driver.C05 Model.Length
+import FloVerif.Gen.Length
+import FloVerif.Gen.Walk
+/-!
+Correspondence for C19: the GENERATED `Gen.curve_length` (whole `section_length` stack loop, `CurveSection` arithmetic,
+chord and polygon; distance = the generated `Coord2::distance_to`) is run at `Float` and must reproduce
+`curve_length`, `chord_length`, `control_polygon_length` of the implementation BIT FOR BIT.
 
-def distF (a b : V2 Float) : Float :=
-  let dx := b.x - a.x
-  let dy := b.y - a.y
-  Float.sqrt (dx * dx + dy * dy)
+Fuel: the loop of the implementation has no iteration bound; the mirror gives the generated loop `mirrorFuel`
+iterations.  A curve that needed more would show up as a DIFF (the mirror's total would be short), it would not pass.
+-/
+namespace Driver.C19
+open Prelude Gen Driver Driver.C05
+
+/-- iterations granted to the generated loop by the mirror (the largest run of the thorough transcript uses < 2^17) -/
+def mirrorFuel : Nat := 4000000
+
+def bitsSame (a : Float) (b : FV) : Bool := a.toBits == b.bits || (a.isNaN && b.f.isNaN)
 
 def handle (op : String) (ins outs : List String) : List Out :=
   match op with
@@ -17,17 +25,16 @@ def handle (op : String) (ins outs : List String) : List Out :=
     let ov : List FV := outs.map (fun s => ⟨parseHex s⟩)
     let p (i : Nat) : V2 Float := ⟨(iv.getD (2*i) default).f, (iv.getD (2*i+1) default).f⟩
     let e := (iv.getD 8 default).f
-    let c : T4 (V2 Float) (V2 Float) (V2 Float) (V2 Float) := T4.mk (p 0) (p 1) (p 2) (p 3)
-    let len := curveLength distF c e
-    let chord := chord_length distF c.t0 c.t1 c.t2 c.t3
-    let poly := control_polygon_length distF c.t0 c.t1 c.t2 c.t3
+    let dist : V2 Float → V2 Float → Float := coord2_distance_to
+    let len := curve_length mirrorFuel dist (p 0) (p 1) (p 2) (p 3) e
+    let chord := chord_length dist (p 0) (p 1) (p 2) (p 3)
+    let poly := control_polygon_length dist (p 0) (p 1) (p 2) (p 3)
     let o (i : Nat) := (ov.getD i default)
-    let close (a : Float) (b : FV) (rel : Float) : Cmp :=
-      if a.toBits == b.bits || (a - b.f).abs ≤ rel * (1 + a.abs) then .same 0 else .diff s!"model={a} impl={b.f}"
-    [{ field := "curve_length", cmp := close len (o 0) 1e-9, fbit := some (len.toBits == (o 0).bits) },
-     { field := "chord_length", cmp := close chord (o 1) 1e-15, fbit := some (chord.toBits == (o 1).bits) },
-     { field := "control_polygon_length", cmp := close poly (o 2) 1e-15, fbit := some (poly.toBits == (o 2).bits) },
-     { field := "bracket(model)", cmp := if chord ≤ len + 1e-9 && len ≤ poly + 1e-9 then .same 0 else .diff s!"chord={chord} len={len} polygon={poly}", fbit := none }]
+    let exact (a : Float) (b : FV) : Cmp :=
+      if bitsSame a b then .same 0 else .diff s!"model={a} ({a.toBits}) impl={b.f} ({b.bits}) [bit-exact comparison]"
+    [{ field := "curve_length", cmp := exact len (o 0), fbit := some (bitsSame len (o 0)) },
+     { field := "chord_length", cmp := exact chord (o 1), fbit := some (bitsSame chord (o 1)) },
+     { field := "control_polygon_length", cmp := exact poly (o 2), fbit := some (bitsSame poly (o 2)) }]
   | _ => [{ field := "unknown-op " ++ op, cmp := .diff "driver does not know this operation", fbit := none }]
 
 end Driver.C19
